@@ -126,7 +126,15 @@ def _toast_case(key, twin):
                         acc = acc + d[k] * x[i]
             want.append(acc)
     r3 = dec.decide(ctx, list(zip(E.flat_elems(Ax), want)))
-    bad = [r for r in (r1, r2, r3) if r.status != 'unsat']
+    # the dense matrix of A.T is the transpose of the dense matrix of A (whatever as_matrix() each of them uses), and acts as mv
+    extra = []
+    if True:
+        M, _, _ = E.run(ctx, lambda d: get(with_data(d)).as_matrix(), [('d', dstruct, 'sym')])
+        MT, _, _ = E.run(ctx, lambda d: get(with_data(d)).T.as_matrix(), [('d', dstruct, 'sym')])
+        Mx, _, _ = E.run(ctx, lambda d, x: get(with_data(d)).as_matrix() @ x, [('d', dstruct, 'sym'), ('x', st, 'sym')])
+        extra.append(dec.decide(ctx, pairs(MT, E.fix(np.asarray(M, dtype=object).T) if E.is_sym(M) else np.asarray(M).T, ctx)))
+        extra.append(dec.decide(ctx, pairs(Mx, Ax, ctx)))
+    bad = [r for r in [r1, r2, r3] + extra if r.status != 'unsat']
     common = dict(prims=sorted(ctx.prims), **dec.stats())
     if not bad:
         return ok(nontrivial=True, sample=dict(program='ToastObservationMatrixOperator(3x3 CSR fixture)' + ('.T' if len(key) > 1 else ''),
@@ -215,7 +223,32 @@ def replay(key, model, info):
         key, twin = key[1], True
     kind = info.get('kind')
     if key[0] == 'toast':
-        return True, 'toast fixture: symbolic verdict only (fixture is 3x3, see model)'
+        from furax.toast.obs_matrix import ToastObservationMatrixOperator
+        import equinox as eqx
+        op0 = ToastObservationMatrixOperator(_toast_fixture())
+        nnz = op0.matrix.data.shape[0]
+        d = jnp.asarray(np.asarray(model_tree(model, 'd', S(nnz, dtype=op0.matrix.data.dtype))) + (0 if model else 0))
+        if not model:
+            d = op0.matrix.data
+        op = eqx.tree_at(lambda o: o.matrix.data, op0, d)
+        if len(key) > 1:
+            op = op.T
+        st = op.in_structure()
+        x, y = model_tree(model, 'x', st), model_tree(model, 'y', st)
+        if not model or float(jnp.abs(x).sum()) == 0:
+            x, y = jnp.array([1., -2., 3.]), jnp.array([0.5, 4., -1.])
+        from furax._base.core import AbstractLinearOperator
+        G = np.asarray(AbstractLinearOperator.as_matrix(op))          # columns op(e_j)
+        problems = []
+        if abs(float(jnp.vdot(op.mv(x), y)) - float(jnp.vdot(x, op.T.mv(y)))) > 1e-9:
+            problems.append('<A x, y> != <x, A.T y>')
+        if not np.allclose(np.asarray(op.T.T.mv(x)), np.asarray(op.mv(x))):
+            problems.append('A.T.T does not act as A')
+        if not np.allclose(np.asarray(op.as_matrix()), G):
+            problems.append('as_matrix() differs from the columns A e_j')
+        if not np.allclose(np.asarray(op.T.as_matrix()), G.T):
+            problems.append('as_matrix() of A.T is not the transpose of the dense matrix of A')
+        return bool(problems), 'observation matrix' + ('.T' if len(key) > 1 else '') + ': ' + ('; '.join(problems) or 'all identities hold on the model values')
     if key[0] == 'cplx':
         from .. import cplx
         if kind == 'struct':
